@@ -121,4 +121,37 @@ theorem next_at_raw (c : List Nat) (p : Nat) (hn : c.length < 4294967296)
   have h3' : c[p + 1 + 1 + 1]? = some 119 := by rw [show p + 1 + 1 + 1 = p + 3 by omega]; exact h3
   simp [matchMiddle, rd_some c (p + 1) 114 h1, rd_some c _ 97 h2', rd_some c _ 119 h3', bind, Except.bind, pure, Except.pure]
 
+
+/-- `{math:` at `p` -/
+theorem next_at_math (c : List Nat) (p : Nat) (hn : c.length < 4294967296)
+    (h0 : c[p]? = some 123) (h1 : c[p + 1]? = some 109) (h2 : c[p + 2]? = some 97)
+    (h3 : c[p + 3]? = some 116) (h4 : c[p + 4]? = some 104) (h5 : c[p + 5]? = some 58) :
+    next c p = .ok (p + 6, 4) := by
+  have hlt : p < c.length := (List.getElem?_eq_some_iff.mp h0).1
+  have hlt4 : p + 4 < c.length := (List.getElem?_eq_some_iff.mp h4).1
+  have hlt5 : p + 5 < c.length := (List.getElem?_eq_some_iff.mp h5).1
+  unfold next
+  have : c.length + 1 - p = (c.length - p) + 1 := by omega
+  rw [this]
+  have hmod : (p + 1 + 3) % 4294967296 = p + 4 := by omega
+  have hmod5 : (p + 1 + 4) % 4294967296 = p + 5 := by omega
+  simp only [nextF, hlt, if_true, rd_some c p 123 h0, bind, Except.bind]
+  have hid : firstCharID 123 = 0 := by decide
+  have hg : W1.groups.getD 0 [] = [1, 2, 3, 4, 5] := by decide
+  have hfc : (0 : Nat) < W1.firstCharsCount := by decide
+  have hwl : W1.wordLengths.getD 1 0 = 3 := by decide
+  have hw : W1.words.getD 1 [] = [118, 97, 114, 58] := by decide
+  have hwl2 : W1.wordLengths.getD 2 0 = 3 := by decide
+  have hw2 : W1.words.getD 2 [] = [114, 97, 119, 58] := by decide
+  have hwl3 : W1.wordLengths.getD 3 0 = 4 := by decide
+  have hw3 : W1.words.getD 3 [] = [109, 97, 116, 104, 58] := by decide
+  have h32 : (2 : Nat) ^ sizeTBits = 4294967296 := by decide
+  simp only [hid, hfc, if_true, hg, tryWords, hwl, hw, hwl2, hw2, hwl3, hw3, h32, hmod, hmod5, hlt4, hlt5,
+    rd_some c (p + 4) 104 h4, rd_some c (p + 5) 58 h5]
+  have h2' : c[p + 1 + 1]? = some 97 := by rw [show p + 1 + 1 = p + 2 by omega]; exact h2
+  have h3' : c[p + 1 + 1 + 1]? = some 116 := by rw [show p + 1 + 1 + 1 = p + 3 by omega]; exact h3
+  have h4' : c[p + 1 + 1 + 1 + 1]? = some 104 := by rw [show p + 1 + 1 + 1 + 1 = p + 4 by omega]; exact h4
+  simp [matchMiddle, rd_some c (p + 1) 109 h1, rd_some c _ 97 h2', rd_some c _ 116 h3', rd_some c _ 104 h4',
+    bind, Except.bind, pure, Except.pure]
+
 end Qentem.Tmpl
